@@ -1,18 +1,27 @@
 #!/bin/bash
-# Runs every patch listed in mutants/expect.tsv and seeded/*/patch.diff against the checks expected to catch it.
+# Runs every patch listed in mutants/expect.tsv and seeded/*/patch.diff against the checks expected to catch it
+# (each in its own scratch copy of /repo's HEAD; JOBS of them at a time).  Prints CAUGHT / MISSED / SKIPPED per patch,
+# sorted, and exits 1 if anything was missed.
 cd /verif
-fail=0
-while IFS=$'\t' read -r patch checks key; do
-  [[ "$patch" =~ ^# ]] && continue
-  [ -z "$patch" ] && continue
+JOBS=${JOBS:-8}
+one_mutant() {  # patch <TAB> checks <TAB> key
+  IFS=$'\t' read -r patch checks key <<< "$1"
   out=$(tools/run_mutant.sh mutants/$patch $checks 2>&1)
-  if echo "$out" | grep -qF "$key"; then echo "CAUGHT  $patch  ($key)"; else echo "MISSED  $patch  (expected $key)"; fail=1; fi
-done < mutants/expect.tsv
-for d in seeded/*/; do
-  id=$(basename $d); prop=${id%%-*}
-  if python3 -c "import json,sys;sys.exit(0 if json.load(open('$d/meta.json')).get('obsolete') else 1)" 2>/dev/null; then echo "SKIPPED $id (obsolete: the tree has changed so that this change no longer breaks the property)"; continue; fi
+  if echo "$out" | grep -qF "$key"; then echo "CAUGHT  $patch  ($key)"; else echo "MISSED  $patch  (expected $key)"; fi
+}
+one_seed() {  # seed directory
+  d=$1; id=$(basename $d); prop=${id%%-*}
+  if python3 -c "import json,sys;sys.exit(0 if json.load(open('$d/meta.json')).get('obsolete') else 1)" 2>/dev/null; then echo "SKIPPED $id (obsolete: the tree has changed so that this change no longer breaks the property)"; return; fi
   extra=$(python3 -c "import json;print(' '.join(json.load(open('$d/meta.json')).get('also_run',[])))" 2>/dev/null)
   out=$(tools/run_mutant.sh $d/patch.diff $prop $extra 2>&1)
-  if echo "$out" | grep -q "^VIOLATION"; then echo "CAUGHT  $id  $(echo "$out" | grep '^\s*\[' | head -2 | tr -s ' ' | tr '\n' ' ')"; else echo "MISSED  $id"; fail=1; fi
-done
-exit $fail
+  if echo "$out" | grep -q "^VIOLATION"; then echo "CAUGHT  $id  $(echo "$out" | grep '^\s*\[' | head -2 | tr -s ' ' | tr '\n' ' ')"; else echo "MISSED  $id  $(echo "$out" | grep -m1 '^error')"; fi
+}
+export -f one_mutant one_seed
+OUT=$(mktemp /tmp/mutants-out.XXXXXX)
+{
+  grep -v '^#' mutants/expect.tsv | grep -v '^$' | tr '\n' '\0' | xargs -0 -P "$JOBS" -I{} bash -c 'one_mutant "$1"' _ {}
+  ls -d seeded/*/ | xargs -P "$JOBS" -I{} bash -c 'one_seed "$1"' _ {}
+} | sort > "$OUT"
+cat "$OUT"
+n=$(grep -c '^MISSED' "$OUT"); rm -f "$OUT"
+[ "$n" = 0 ]
